@@ -467,6 +467,46 @@ def r8(ctx, facts):
                        "the iterator over the database's fields is advanced where the name comparison of this Rust field has not come out equal", nx.span)
 
 
+# attributes in force per family struct (CQL name -> set); everything not listed has none
+NULL_DEFAULT = {
+    "RowDefaults": {"b"},
+    "UdtStrict": {"b"},
+    "UdtOrderedDefaults": {"b"},
+}
+
+
+def r9(ctx, facts):
+    r = ctx.rule("R9", "a NULL is turned into Default::default() only for fields marked default_when_null (allow_missing covers an absent field, not a null one)", floor=8)
+    n = 0
+    for name, (kind, flavor, fields, derives) in sorted(FAMILY.items()):
+        if "d" not in derives or flavor != "name":
+            continue
+        tr = "scylla_cql_core::deserialize::row::DeserializeRow" if kind == "row" else "scylla_cql_core::deserialize::value::DeserializeValue"
+        b = find_body(facts, r"^<derive_family::%s as %s<'lifetime, 'lifetime_>>::deserialize$" % (name, re.escape(tr)))
+        df = df_of(b, facts)
+        lits = eq_literals(b)
+        in_arm = {}
+        for bb, c in b.calls():
+            if bb in b.live_blocks and (c.decl == "core::default::Default::default" or (c.name or "").endswith(("::unwrap_or_default", "::or_default"))):
+                L = literal_in_force(df, lits, df.state_in.get(bb))
+                if L is not None:
+                    in_arm.setdefault(L, []).append(c)
+        allowed = NULL_DEFAULT.get(name, set())
+        for f, cql, ty in fields:
+            if cql is None:
+                continue
+            n += 1
+            has = cql in in_arm
+            if cql in allowed:
+                r.instance("null-default:%s:%s" % (name, cql), has, "field %s is default_when_null but the arm of its name has no Default::default() fallback" % f, b.span)
+            else:
+                r.instance("null-default:%s:%s" % (name, cql), not has,
+                           "the arm of name %r falls back to Default::default() although field %s is not marked default_when_null: a NULL in the database silently becomes the default value "
+                           "instead of being handed to the field's own deserializer (which rejects it for non-Option types)" % (cql, f), in_arm[cql][0].span if has else b.span)
+    if n == 0:
+        raise AnchorLost("no by-name deserializer of the family found")
+
+
 def switch_edges_(b, sw):
     t = b.term(sw)
     return {int(v): tg for v, tg in t[2]}, t[3]
@@ -479,7 +519,7 @@ def check(ctx):
         sers = r1(ctx, facts)
     except AnchorLost as ex:
         ctx.rule("R1x", "anchors").fail("anchor-lost", str(ex))
-    for fn in ((lambda c, f: r2(c, f, sers)), r3, r4, r5, r6, r7, r8):
+    for fn in ((lambda c, f: r2(c, f, sers)), r3, r4, r5, r6, r7, r8, r9):
         try:
             fn(ctx, facts)
         except AnchorLost as ex:
